@@ -1443,6 +1443,12 @@ func (e *Engine) evalSpecHelper(st *State, call *ast.CallExpr, name string) Valu
 		}
 	case "pure":
 		return e.eval(st, call.Args[0])
+	case "decval":
+		return IntV{e.decval(st, e.asInt(e.eval(st, call.Args[0]), call))}
+	case "alldigits":
+		return BoolV{e.isDigits(st, e.asInt(e.eval(st, call.Args[0]), call))}
+	case "pow10":
+		return IntV{e.pow10(e.asInt(e.eval(st, call.Args[0]), call))}
 	case "sbyteAt":
 		bo := e.bytesOperand(st, call.Args[0])
 		i := e.asInt(e.eval(st, call.Args[1]), call)
